@@ -31,8 +31,9 @@ RULE = ("case: k in {2,3} classes labelled 0..k-1 with 15..40 samples each (Gaus
         "perform_classification_dimension_wise (lmax 2..3, max_evaluations 20..60) [sub dw], one_vs_others on/off; then 1..3 "
         "operations, each `cl(ds)` or `cl.test_data(ds)` on a fresh DataSet of 1..14 samples whose zone is inside (random "
         "points and original samples incl. the extreme ones) / partly outside (clear, near-threshold and - for __call__ - "
-        "tolerance-band points) / entirely outside / pre-scaled with the learning scaling, with 0..100% unlabelled (-1) "
-        "samples, optionally built from a bare ndarray; optionally the first operation's data is evaluated again at the end. "
+        "tolerance-band points) / entirely outside / pre-scaled like the tutorial does (copy.scale_range((0.005,0.995)); "
+        "split_pieces), with 0..100% unlabelled (-1) samples, print_removed / print_output / print_incorrect_points flags, "
+        "optionally built from a bare ndarray; optionally the first operation's data is evaluated again at the end. "
         "All oracle clauses are evaluated after learning and after every operation. Non-trivial = some operation with >=1 "
         "removed and >=1 kept sample is executed after an earlier successful test_data call. Distinct = distinct case dict.")
 
@@ -56,6 +57,11 @@ ASSUMPTIONS = [
     "'reported' = the notice and, with print_removed=True, one line per removed sample on stdout of a Classification "
     "constructed with the default print level (log_info); 'set aside' = unlabelled survivors are not counted in the summary, "
     "do not enter the calculated classes, and are appended to get_omitted_data()",
+    "every DensityEstimation object returned by get_density_estimation_results() must have been trained on the learning "
+    "samples in the learned scaling (its public .data attribute; all learning samples with one_vs_others) - otherwise "
+    "'density at the position in the learning scaling' would be meaningless although the arg-max predicate still held",
+    "evaluate() after a test_data call has to summarise the built-in testing part followed by all tested labelled survivors "
+    "(get_testing_data() must stay aligned with get_calculated_classes_testset())",
     "library calls run with the global numpy/random RNG seeded from case['rng'] (DataSet.shuffle uses sklearn.utils.shuffle)",
 ]
 
@@ -359,14 +365,16 @@ def run(case):
     lab = y >= 0
     S0 = scale(X[lab])
     st0 = survivor_status(np, S0) if user_range else np.ones(int(lab.sum()), dtype=int)
-    if np.any(st0 == 0):
-        out.cls("skip:ambiguous-threshold")
-        return out
     keep0 = st0 == 1
     L, T0 = cl.get_learning_data(), cl.get_testing_data()
     both = [np.asarray(v[0], dtype=float).reshape(-1, d) for v in (L, T0) if not v.is_empty()]
     both_l = [np.asarray(v[1]) for v in (L, T0) if not v.is_empty()]
-    msg = multiset_mismatch(np, np.concatenate(both), np.concatenate(both_l), S0[keep0], y[lab][keep0])
+    both, both_l = np.concatenate(both), np.concatenate(both_l)
+    for b in np.where(st0 == 0)[0]:
+        # an original inside the tolerance band of a user supplied range may or may not have been kept
+        keep0[b] = bool(np.any((np.max(np.abs(both - S0[b]), axis=1) <= TOL_POS) & (both_l == y[lab][b])))
+        out.cls("original-in-tolerance-band")
+    msg = multiset_mismatch(np, both, both_l, S0[keep0], y[lab][keep0])
     if msg:
         out.bad(sub + "/scaling/learning-data-not-in-learned-scaling", "learning+testing part vs harness-scaled labelled originals: " + msg)
         return out
@@ -776,7 +784,7 @@ def selftest():
 
 SUBS = [
     Sub("std", _strategy("std"), run, dict(quick=4000, thorough=40000), case_timeout=120,
-        budget_s=dict(quick=25, thorough=300), fixed_cases=_fixed("std")),
+        budget_s=dict(quick=22, thorough=300), fixed_cases=_fixed("std")),
     Sub("dw", _strategy("dw"), run, dict(quick=1200, thorough=10000), case_timeout=180,
-        budget_s=dict(quick=30, thorough=300), fixed_cases=_fixed("dw")),
+        budget_s=dict(quick=26, thorough=300), fixed_cases=_fixed("dw")),
 ]
